@@ -38,7 +38,7 @@ ASSUMPTIONS = [
     "'the end marker' = EI followed by a byte for which bytes.isspace() is true; inline data is written as ID<space>data<LF>EI<LF> and does not end in CR",
     "export formats limited to those that do not need Pillow (DCT pass-through, 1-bit / 8-bit gray / 8-bit RGB bitmaps)",
 ]
-PROBES = ["non-ASCII comment right behind the end marker", "file names reported in the XML compared with the files written", "stencil mask", "samples begin with a magic number", "run under settings.STRICT", "page with shifted MediaBox or /Rotate", "one ImageWriter for two documents", "ASCII85 inline data contains EI + white space", "two inline images with the same data bytes", "dct data continues behind the EOI marker", "CR after ID and data starting with LF", "dct behind further filters", "same XObject drawn twice", "inline image ending at the ASCII85 marker", "inline image", "xobject image", "gray8", "rgb8", "1bit", "dct", "filter chain", "unfiltered", "row padding needed", "boundary placed in inline markers", "contents split after image", "inline data contains EI", "preexisting export name", "two images same name", "bmp exported", "jpg exported"]
+PROBES = ["inline keys abbreviated one by one", "non-ASCII comment right behind the end marker", "file names reported in the XML compared with the files written", "stencil mask", "samples begin with a magic number", "run under settings.STRICT", "page with shifted MediaBox or /Rotate", "one ImageWriter for two documents", "ASCII85 inline data contains EI + white space", "two inline images with the same data bytes", "dct data continues behind the EOI marker", "CR after ID and data starting with LF", "dct behind further filters", "same XObject drawn twice", "inline image ending at the ASCII85 marker", "inline image", "xobject image", "gray8", "rgb8", "1bit", "dct", "filter chain", "unfiltered", "row padding needed", "boundary placed in inline markers", "contents split after image", "inline data contains EI", "preexisting export name", "two images same name", "bmp exported", "jpg exported"]
 TIERS = {
     "quick": {"batches": 16, "runs": 450, "budget_s": 90},
     "thorough": {"batches": 128, "runs": 500, "budget_s": 1200},
@@ -178,6 +178,10 @@ def build_document(t, ctx, images, page_of, with_images=True, geom=(0, 0, 0)):
         elif im["inline"]:
             abbr = t.coin(60, 100, "inl.abbr")
             d = b"/W %d /H %d /BPC %d " % (im["w"], im["h"], im["bits"]) if abbr else b"/Width %d /Height %d /BitsPerComponent %d " % (im["w"], im["h"], im["bits"])
+            if t.coin(25, 100, "inl.mixedkeys"):
+                # every key is abbreviated or not on its own
+                d = b"".join((short if t.coin(50, 100, "inl.keyabbr") else full) + b" %d " % v for short, full, v in ((b"/W", b"/Width", im["w"]), (b"/H", b"/Height", im["h"]), (b"/BPC", b"/BitsPerComponent", im["bits"])))
+                ctx.probe("inline keys abbreviated one by one")
             if im.get("mask"):
                 d += (b"/IM true " if abbr else b"/ImageMask true ")  # a stencil mask has no colour space
             else:
